@@ -615,8 +615,8 @@ pub fn run(ctx: &Ctx) -> Report {
     let template = real::blank_machine();
     let sz = Sizes {
         two_byte_samples: ctx.size(1000, 10_000) as usize,
-        misc_samples: ctx.size(2000, 200_000) as usize,
-        seq_programs: ctx.size(20_000, 4_000_000) as usize,
+        misc_samples: ctx.size(6000, 200_000) as usize,
+        seq_programs: ctx.size(100_000, 4_000_000) as usize,
         alu_stride: 1,
     };
     let mut rep = par_items(ctx.threads, n_items(&sz), ctx.seed, |i, seed, rep| {
